@@ -577,6 +577,7 @@ def rand_expr(rng, vars_, depth, want_paren):
 
 
 # formal parameter names of custom gates that look like constants or functions
+FORCED_SHADOW = [None]  # formal name that the next `custom-shadow` program must declare and use
 SHADOW_NAMES = ["tau", "euler", "e", "pi2", "lam", "sin", "cos", "exp", "sqrt", "ln", "gamma", "api", "np2", "pie"]
 LITERALS = ["1e-3", "2.5e-1", "1.5e+1", "1E-2", "-0.5", "-3", "-1e-2", "-2.5", "0.5e1", "3", "0.001"]
 
@@ -650,6 +651,8 @@ def gen_program(rng, feature):
                 formals = ["theta", "w"]  # same formal name as the inner definition may use
             if feature == "custom-shadow":  # formal names that look like constants / functions
                 formals = rng.sample(SHADOW_NAMES, rng.randint(1, 3))
+                if FORCED_SHADOW[0] is not None:  # every name is covered on every run
+                    formals = [FORCED_SHADOW[0]] + [f for f in formals if f != FORCED_SHADOW[0]][:2]
             if feature == "custom-multiuse":
                 formals = rng.sample(["alpha", "beta", "theta", "x", "lam", "phi"], rng.randint(2, 3))
             if feature == "custom-shared":  # both definitions use the same formal names
@@ -751,10 +754,22 @@ def search_programs(ctx):
     seen = {}
     nbad = 0
     for feature in FEATURES:
-        for _ in range(per):
+        for it in range(max(per, len(SHADOW_NAMES)) if feature == "custom-shadow" else per):
             try:
-                text, exp, n, regs = gen_program(ctx.rng, feature)
+                if feature == "custom-shadow":
+                    # round-robin over the shadowing names; keep a program only if the body of
+                    # the definition really uses that formal
+                    FORCED_SHADOW[0] = SHADOW_NAMES[it % len(SHADOW_NAMES)]
+                    for _try in range(30):
+                        text, exp, n, regs = gen_program(ctx.rng, feature)
+                        body_txt = text[text.find("{"):text.find("}")]
+                        if FORCED_SHADOW[0] in body_txt.replace(",", " ").replace("(", " ").replace(")", " ").split():
+                            break
+                    FORCED_SHADOW[0] = None
+                else:
+                    text, exp, n, regs = gen_program(ctx.rng, feature)
             except (ZeroDivisionError, ValueError, IndexError):
+                FORCED_SHADOW[0] = None
                 continue
             ctx.case(("program", text))
             ref = Circuit(n)
